@@ -206,6 +206,7 @@ type qConn struct {
 	closed     chan struct{}
 	once       *sync.Once
 	peer       *qConn
+	dgDelay    time.Duration // a datagram send takes this long (pacing / a full send queue)
 }
 
 func newQPair(fragA, fragB func() int) (*qConn, *qConn) {
@@ -237,6 +238,9 @@ func (c *qConn) SendDatagram(b []byte) error {
 	c.dgMu.Lock()
 	*c.dgOut = append(*c.dgOut, append([]byte(nil), b...))
 	c.dgMu.Unlock()
+	if c.dgDelay > 0 {
+		time.Sleep(c.dgDelay)
+	}
 	return nil
 }
 func (c *qConn) ReceiveDatagram(ctx context.Context) ([]byte, error) {
@@ -891,21 +895,44 @@ func runC14Quic(s *Sim, P int, malformed bool) {
 	}
 	var msgs []*qm
 	var flight [][]byte
+	// several goroutines write through the handles (and the transport) at the same time while a datagram
+	// send takes a moment, so that the segments of different messages are interleaved on the way out
+	concurrent := t.Bool("q-concurrent-writers", 1, 3)
+	if concurrent {
+		qa.dgDelay = time.Millisecond
+		s.Stat("env.concurrent-datagram-writers")
+	}
+	var wmu sync.Mutex
+	var werrs []error
 	for i := 0; i < nm; i++ {
 		k := Pick(t, "q-k", 1, 2, 4, 9)
 		size := (k-1)*P + Pick(t, "q-tail", 0, 1, P)
 		m := &qm{msg: messageOfSize(t, size, fmt.Sprintf("dg%d", i))}
 		// the application may use several handles of one transport (and the transport itself)
-		var err error
-		switch Pick(t, "q-path", "handle-1", "handle-1", "handle-2", "transport") {
-		case "handle-2":
-			err = ua2.Write(m.msg)
-		case "transport":
-			err = ta.WriteUnreliable(m.msg)
-		default:
-			err = ua.Write(m.msg)
+		path := Pick(t, "q-path", "handle-1", "handle-1", "handle-2", "transport")
+		write := func() error {
+			switch path {
+			case "handle-2":
+				return ua2.Write(m.msg)
+			case "transport":
+				return ta.WriteUnreliable(m.msg)
+			}
+			return ua.Write(m.msg)
 		}
-		if err != nil {
+		if concurrent {
+			start := time.Duration(t.Choose("q-start-offset", 4)) * 500 * time.Microsecond
+			go func() {
+				time.Sleep(start)
+				if err := write(); err != nil {
+					wmu.Lock()
+					werrs = append(werrs, err)
+					wmu.Unlock()
+				}
+			}()
+			msgs = append(msgs, m)
+			continue
+		}
+		if err := write(); err != nil {
 			s.Violate("C14.sender-refuses-valid", "quic", "unreliable Write of %d bytes: %v", size, err)
 			return
 		}
@@ -918,6 +945,17 @@ func runC14Quic(s *Sim, P int, malformed bool) {
 		}
 		flight = append(flight, segs...)
 		msgs = append(msgs, m)
+	}
+	if concurrent {
+		s.Wait()
+		time.Sleep(time.Second)
+		s.Wait()
+		wmu.Lock()
+		if len(werrs) > 0 {
+			s.Violate("C14.sender-refuses-valid", "quic:concurrent", "unreliable Write failed with concurrent writers: %v", werrs[0])
+		}
+		wmu.Unlock()
+		flight = qa.takeDatagrams()
 	}
 	if malformed {
 		flight = append(flight, []byte{1, 2, 3}, []byte{}, make([]byte, 7))
